@@ -70,8 +70,10 @@ def file_patterns_for(r, vp, k0, legacy=False):
             pats.append("Copyright (c%d) YYYY" % k)
         elif choice < 0.8 and "MAJOR" in vp and "MINOR" in vp and not legacy:
             pats.append("badge%d-vMAJOR.MINOR-blue.svg?x=(1)|y" % k)
-        elif choice < 0.9:
+        elif choice < 0.85:
             pats.append("url%d/{version}/dl+me" % k)
+        elif choice < 0.92 and (not legacy or vp in ("{pycalver}", "{semver}", "v{year}{month}{build}{release}")):
+            pats.append("pip install demo%d=={pep440_version}" % k)
         else:
             pats.append("{version} <- tail%d" % k)
     return pats, k
@@ -226,6 +228,12 @@ def scripted_specs():
             [[T("# "), O(3)], [O(0), T(" by the team")], [O(1)], [T("archive "), O(2), T("/")]])
     fs.known = {0: lambda v: "Released in %d-%d" % pyc(v)[:2], 1: lambda v: "build %s, %s" % pyc(v)[2:], 2: lambda v: "in %d%02d" % pyc(v)[:2]}
     out.append(dict(base, legacy=True, vp="{pycalver}", old="v202401.1001-beta", flags=[], date=dt.date(2024, 4, 28), files=[fs]))
+    # a configured dot-file next to an unconfigured file of the same name without the dot (and one in the parent's spelling), both carrying the version
+    out.append(dict(base, vp="MAJOR.MINOR.PATCH", old="1.2.3", flags=["--patch"], extra_files={"version": "#!/bin/sh\necho 1.2.3\n", "src/version": "1.2.3\n"}, files=[
+        mk(".version", ["{version}"], [[O(0)]]), mk("src/.version", ["{version}"], [[O(0)]])]))
+    # the file that sorts last consists of the version line and the line terminator only (the last context line of its diff is an empty line)
+    out.append(dict(base, vp="MAJOR.MINOR.PATCH", old="1.2.3", flags=["--patch"], files=[
+        mk("zz_version.txt", ["{version}"], [[O(0)]]), mk("notes.txt", ["release {version}"], [[T("a")], [O(0)], [T("")], [T("")], [T("end")]])]))
     # the match of a later pattern ENCLOSES the match of an earlier one on one line (it is then skipped there) and stands apart from it on
     # another line; the version grows in length
     out.append(dict(base, vp="MAJOR.MINOR.PATCH", old="1.2.9", flags=["--patch"], files=[
@@ -276,6 +284,12 @@ def write_contents(prj, spec, version=None):
     for fs in spec["files"]:
         text = fs.render(prj.render, version or spec["old"], spec["old"])
         full = prj.path(fs.path)
+        os.makedirs(os.path.dirname(full), exist_ok=True)
+        with open(full, "wb") as f:
+            f.write(text.encode("utf-8"))
+    # files that exist in the project without being configured (they must stay as they are)
+    for path, text in (spec.get("extra_files") or {}).items():
+        full = prj.path(path)
         os.makedirs(os.path.dirname(full), exist_ok=True)
         with open(full, "wb") as f:
             f.write(text.encode("utf-8"))
